@@ -244,6 +244,11 @@ func (p *Program) callMods(cc *ssa.CallCommon, ms *ModSet) {
 		}
 		return
 	}
+	switch key {
+	case "fmt.Fprintf", "fmt.Fprint", "fmt.Fprintln", "io.WriteString", "(*text/template.Template).ExecuteTemplate", "(*text/template.Template).Execute":
+		ms.All = true
+		return
+	}
 	if key == "io.ReadFull" {
 		ms.add(descElem(types.Typ[types.Uint8]))
 		ms.add(descAlloc)
